@@ -330,6 +330,14 @@ func blockCommentState(nesting int) stateFn {
 		r := l.next()
 		switch r {
 		case EOF:
+			// The comment is unterminated (reported by the parser),
+			// emit the content that was read
+			if l.prevEndOffset-l.startOffset > 0 {
+				eofOffset := l.endOffset
+				l.endOffset = l.prevEndOffset
+				l.emitType(TokenBlockCommentContent)
+				l.endOffset = eofOffset
+			}
 			return nil
 		case '/':
 			beforeSlashOffset := l.prevEndOffset
